@@ -36,7 +36,9 @@ CLAIMED = {
         technique="Lean 4 proof (per-operator stream invariants + structural induction) + source-derived table + differential correspondence",
         design="DESIGN.md §4 C02"),
     "C03": dict(
-        text="Machine-checked proof (Lean 4) about the mirror of rtamt's horizon visitor and pastifier: pastify is the identity on "
+        text="Machine-checked proof (Lean 4): the horizon visitors and the StlPastifier visitor are translated from the Python source on "
+             "every run; genHor_eval and genPast_visit prove that the translated methods, with the visitor's dispatch, compute the "
+             "mirrors hor? and past (RTAMTException exactly for unbounded future). About these mirrors: pastify is the identity on "
              "future-free specifications, its result has no future operator, and on the fragment `frag` (bounded future; past/event "
              "operators over future-free operands) the online monitor of the pastified specification returns, at every update "
              "i >= hor, rho of the original at i-hor on the trace seen so far. The full statement is proved false for the algorithm "
@@ -73,7 +75,9 @@ CLAIMED = {
         technique="Lean 4 proof (window algebra over a bounded linear order) + metamorphic correspondence",
         design="DESIGN.md §4 C18"),
     "C08": dict(
-        text="Machine-checked proof (Lean 4) that the elaboration of a surface interval (number + optional unit on either end, "
+        text="Machine-checked proof (Lean 4): DiscreteTimeInterpreter.time_unit_transformer is translated from the Python source on every "
+             "run and gen_time_unit_transformer proves that it computes the mirror SIv.toSamples (RTAMTException exactly for "
+             "non-multiples of the period). About that mirror: the elaboration of a surface interval (number + optional unit on either end, "
              "default unit, sampling period in any unit) to samples depends only on the durations relative to the sampling period, "
              "that samples x period is exactly the written duration, that non-multiples are rejected with RTAMTException, and "
              "hence that specifications with the same durations elaborate to the same core formula (so every monitor and pastify "
@@ -94,7 +98,8 @@ CLAIMED = {
         technique="Lean 4 proof (shape invariant preserved by step, reset maps it to init) + differential correspondence",
         design="DESIGN.md §4 C10"),
     "C13": dict(
-        text="Machine-checked proof (Lean 4, rationals) that the online fold and the offline loop of the sampling-violation counter "
+        text="Machine-checked proof (Lean 4, rationals): update_sampling_violation_counter is translated from the Python source on every run "
+             "and gen_update_counter proves that it increments the counter exactly when the mirror's test holds; the online fold and the offline loop of the sampling-violation counter "
              "count exactly the gaps outside [P(1-tol),P(1+tol)] with P the period in the unit of the time stamps, for time-stamp "
              "lists of any length, and that the robustness values do not depend on the time stamps. Correspondence: counters of "
              "the real online and offline monitors on exactly representable configurations incl. gaps on both boundaries.",
